@@ -50,6 +50,7 @@ def run(ctx):
         ctx.guard("C10", "pipeline", lambda: effbs.scorer_pipeline(ctx, prog))
         ctx.guard("C10", "scan", lambda: effbs.scan_guards_tight(ctx, prog))
         ctx.guard("C10", "scan-exits", lambda: effbs.scan_exits(ctx, prog))
+        ctx.guard("C10", "recurrences", lambda: effbs.recurrence_steps(ctx, prog))
         ctx.guard("C10", "windows", lambda: effbs.windows(ctx, prog))
         ctx.guard("C10", "window-steps", lambda: effbs.window_steps(ctx, prog))
         ctx.guard("C10", "consts", lambda: data.window_constants(ctx, prog))
